@@ -339,6 +339,11 @@ pub fn build<'src, I: HInput<'src>, E: HErr<'src, I>>(g: &G, cx: &Cx<'src, I, E>
         }
         G::WithState(a) => b(a).with_state(Insp::default()).boxed(),
         G::Memo(_, a) => b(a).memoized().boxed(),
+        // a `Memoized` whose first field is a `Memoized`: both have the same address
+        G::MemoNest(_, a) => b(a).memoized().memoized().boxed(),
+        // two distinct zero-sized memoized parsers side by side
+        G::MemoZst(_) => any().ignored().memoized().or(end().memoized()).to(Val::Unit).boxed(),
+        G::Lazy(a) => b(a).lazy().boxed(),
         G::Call(k) => cx.defs[*k].clone().boxed(),
         G::Boxed(a) => b(a).boxed(),
     }
